@@ -61,8 +61,11 @@ def explore_choices(run, bound, cap=None, root_filter=None):
     run(chooser) executes one complete behaviour.  Yields (chooser, result).  'order' points
     (completion order of isolated tasks) are free; 'sched' points cost one preemption when
     the running thread was still enabled and another one is chosen.  root_filter(i) -> bool
-    restricts the alternatives taken at point i of the root execution (used to shard one
-    exploration over several workers: the filters of the shards partition the indices)."""
+    shards one exploration over several workers: in an execution that has used no preemption
+    yet, a worker takes the preempting alternative at point i only if root_filter(i) holds (the
+    filters of the shards partition the indices).  Every execution with at least one preemption
+    then belongs to exactly one shard (by the index of its first preemption); executions without
+    any preemption (free choices only) are run by every shard."""
     stack = [[]]
     n = 0
     while stack:
@@ -77,9 +80,10 @@ def explore_choices(run, bound, cap=None, root_filter=None):
             return
         used = 0
         for i, (c, (arity, kind, run_en)) in enumerate(zip(ch.choices, ch.points)):
-            if i >= len(prefix) and (root_filter is None or prefix or root_filter(i)):
-                cost = used + (1 if (kind == "sched" and run_en) else 0)
-                if cost <= bound:
+            if i >= len(prefix):
+                costed = kind == "sched" and run_en
+                cost = used + (1 if costed else 0)
+                if cost <= bound and (root_filter is None or used > 0 or not costed or root_filter(i)):
                     for alt in range(arity - 1, 0, -1):
                         stack.append(ch.choices[:i] + [alt])
             if kind == "sched" and run_en and c != 0:
